@@ -79,3 +79,45 @@ func SelfSyncMap() {
 	verifnd.Assert(ok == (s != "ab"), "delete")
 	verifnd.Reach("done")
 }
+
+type selfBuf struct{ n int }
+
+var (
+	selfPool   = sync.Pool{New: func() any { return &selfBuf{} }}
+	selfMu     sync.Mutex
+	selfShared = map[string]int{}
+	selfCount  int
+)
+
+// SelfPoolUse must be reported (SHAREDWRITE): an object is read after it was handed to the pool.
+func SelfPoolUse() {
+	verifnd.Freeze()
+	b := selfPool.Get().(*selfBuf)
+	b.n = 3
+	selfPool.Put(b)
+	verifnd.Assert(b.n == 3, "value")
+}
+
+// SelfPoolOK must hold: the object is used only between Get and Put; a write to a package-level
+// map under a mutex is not a shared write.
+func SelfPoolOK() {
+	verifnd.Freeze()
+	b := selfPool.Get().(*selfBuf)
+	b.n = 3
+	n := b.n
+	selfPool.Put(b)
+	selfMu.Lock()
+	selfShared["k"] = n
+	selfMu.Unlock()
+	c := selfPool.Get().(*selfBuf)
+	c.n = 4
+	selfPool.Put(c)
+	verifnd.Reach("done")
+}
+
+// SelfUnlockedWrite must be reported (SHAREDWRITE): a package-level variable is written after
+// Freeze without a lock.
+func SelfUnlockedWrite() {
+	verifnd.Freeze()
+	selfCount++
+}
